@@ -217,6 +217,12 @@ def r04_3_model_syntaxes(repo: Repo, rep: Report):
             t = src(c) if c is not None else ""
             ok = c is not None and "value.split()" in t and "token.startswith('bv')" in t and "int(token[2:])" in t
         rep.check("R04.3", bool(ok), m, c or pcv, f"parse_const_value arm for {key!r} values", f"value syntax {key!r} is not parsed with the right radix")
+    # names the engine generates for nested parameters (calldata.encode: a[0], s.x, s.arr[1].y) must be captured too
+    for nm in ("p_a[0]_uint256_043cfd7_01", "p_s.x_uint256_043cfd7_02", "p_s.arr[1].y_bytes32_043cfd7_03", "p_b_length_043cfd7_04", "halmos_my-var_uint256_043cfd7_05"):
+        line = f"(define-fun |{nm}| () (_ BitVec 256) #x01)"
+        mm = rx.search(line)
+        ok = mm is not None and mm.group(1) == nm and mm.group(4) == "#x01"
+        rep.check("R04.3", ok, m, patnode, f"halmos_var_pattern captures {nm!r}", "a symbol name the engine generates (array element / struct field parameter) is not captured: the printed counterexample silently omits that input")
     ms = [s for s in body_walk(pcv) if isinstance(s, ast.Match)]
     ok = len(ms) == 1 and src(ms[0].subject) == "value[:2]"
     rep.check("R04.3", ok, m, ms[0] if ms else pcv, f"match {src(ms[0].subject) if ms else '?'}", "dispatch must be on the two-character prefix")
